@@ -247,6 +247,13 @@ class UnitBuilder:
         if sig_clauses:
             order = {'requires': 0, 'recommends': 0, 'ensures': 1, 'decreases': 2, 'no_unwind': 3}
             sig_clauses.sort(key=lambda x: order.get(x[0], 9))
+            merged = []
+            for k, b in sig_clauses:   # several blocks of one kind (contract file + unit additions) become one clause
+                if merged and merged[-1][0] == k:
+                    merged[-1] = (k, merged[-1][1].rstrip('\n') + '\n' + b)
+                else:
+                    merged.append((k, b))
+            sig_clauses = merged
             fn.insert(fn.ob, '\n' + ''.join('    %s\n%s\n' % (k, b) for k, b in sig_clauses))
         for n, cl in loop_clauses.items():
             if cl:
